@@ -378,6 +378,11 @@ pub struct Case {
     /// arrives as well (the damaged frame was an extra one), then the other request's reply
     #[serde(default)]
     pub late_reply: bool,
+    /// (replies) the damaged bytes (addressed to the first request) are taken off the transport
+    /// by the *other* request's reader, which is polled first; that other request's own valid
+    /// reply follows
+    #[serde(default)]
+    pub other_reads: bool,
 }
 
 #[derive(Debug, PartialEq, Eq)]
@@ -473,6 +478,160 @@ fn feed_reply_b_first(spec: &ReqSpec, bytes: &[u8]) -> Fed {
         Some(Ok(v)) => Fed::OtherCallerBroken(format!("request B got foreign data {v:?} instead of the reply that had arrived for it")),
         Some(Err(e)) => Fed::OtherCallerBroken(format!(
             "request B failed with {e:?} although its valid reply had arrived before the damaged bytes"
+        )),
+    }
+}
+
+/// `tag` = the text between `<` and `>` of a start tag: is it, for any XML reader, the start of an
+/// `<rpc-reply>` in the NETCONF base namespace bearing `message-id="<id>"`? Conservative: anything
+/// irregular (unparsable attribute syntax, duplicate attributes, references, a self-closing tag)
+/// gives `false`.
+fn root_tag_is_reply_to(tag: &str, id: &str) -> bool {
+    const BASE: &str = "urn:ietf:params:xml:ns:netconf:base:1.0";
+    if tag.ends_with('/') || tag.contains('<') || tag.contains('&') {
+        return false;
+    }
+    let is_ws = |c: char| matches!(c, ' ' | '\t' | '\n' | '\r');
+    let name_end = tag.find(is_ws).unwrap_or(tag.len());
+    let name = &tag[..name_end];
+    let (prefix, local) = match name.split_once(':') {
+        Some((p, l)) => (Some(p), l),
+        None => (None, name),
+    };
+    let ok_name = |n: &str| {
+        !n.is_empty()
+            && n.chars().all(|c| c.is_ascii_alphanumeric() || matches!(c, '-' | '_' | '.'))
+            && !n.starts_with(|c: char| c.is_ascii_digit() || c == '-' || c == '.')
+    };
+    if local != "rpc-reply" || prefix.is_some_and(|p| !ok_name(p)) {
+        return false;
+    }
+    // attributes
+    let mut attrs: Vec<(String, String)> = Vec::new();
+    let mut rest = &tag[name_end..];
+    loop {
+        let trimmed = rest.trim_start_matches(is_ws);
+        if trimmed.is_empty() {
+            break;
+        }
+        if trimmed.len() == rest.len() {
+            return false; // no white space before the attribute
+        }
+        let Some(eq) = trimmed.find('=') else { return false };
+        let key = trimmed[..eq].trim_end_matches(is_ws);
+        let key_ok = match key.split_once(':') {
+            Some((p, l)) => ok_name(p) && ok_name(l),
+            None => ok_name(key),
+        };
+        if !key_ok {
+            return false;
+        }
+        let after = trimmed[eq + 1..].trim_start_matches(is_ws);
+        let Some(q) = after.chars().next().filter(|c| *c == '"' || *c == '\'') else { return false };
+        let Some(close) = after[1..].find(q) else { return false };
+        let value = &after[1..1 + close];
+        if attrs.iter().any(|(k, _)| k == key) {
+            return false;
+        }
+        attrs.push((key.to_string(), value.to_string()));
+        rest = &after[close + 2..];
+    }
+    let ns_key = match prefix {
+        Some(p) => format!("xmlns:{p}"),
+        None => "xmlns".to_string(),
+    };
+    attrs.iter().any(|(k, v)| *k == ns_key && v == BASE)
+        && attrs.iter().any(|(k, v)| k == "message-id" && v == id)
+}
+
+/// The other request's future (B) is the one reading when the damaged bytes - a reply to A -
+/// arrive, followed by B's valid reply. B's reader has to hand the damaged message over to A (or,
+/// if it cannot tell whose it is, fail with a read error - then it is "the affected call"); if the
+/// bytes visibly bear A's message-id in a well-formed start tag, B must receive its own reply.
+pub fn feed_reply_other_reads(spec: &ReqSpec, bytes: &[u8]) -> Fed {
+    let (mut sess, wire) = establish_caps(&all_caps());
+    let fut_b = match drive(sess.rpc::<GetConfig<Opaque>, _>(|b| {
+        b.source(Ds::Running.to_lib())?.finish()
+    })) {
+        Some(Ok(f)) => f,
+        other => {
+            return Fed::OtherCallerBroken(format!(
+                "harness: cannot send request B: {:?}",
+                other.map(|r| r.map(|_| ()))
+            ))
+        }
+    };
+    let id_b = wire
+        .sent()
+        .last()
+        .and_then(|m| message_id_lenient(m))
+        .unwrap_or_default();
+    // request A is sent but its future is not polled
+    let sent_before = wire.sent().len();
+    let fut_a = match drive(sess.rpc::<GetConfig<Opaque>, _>(|b| {
+        b.source(Ds::Running.to_lib())?.finish()
+    })) {
+        Some(Ok(f)) => f,
+        _ => return Fed::OtherCallerBroken("harness: cannot send request A".into()),
+    };
+    let id_a = wire
+        .sent()
+        .get(sent_before)
+        .and_then(|m| message_id_lenient(m))
+        .unwrap_or_default();
+    let _ = spec;
+    // only judged when the damaged message starts with a well-formed <rpc-reply ...> start tag
+    // that bears A's id (then anybody can tell whose reply it is)
+    let text = String::from_utf8_lossy(bytes);
+    // the root start tag: the first tag whose name is (prefix:)rpc-reply, with nothing but
+    // comments, white space and an XML declaration before it
+    let addressed_to_a = std::str::from_utf8(bytes).is_ok() && {
+        let mut rest = text.trim_start();
+        loop {
+            if let Some(r) = rest.strip_prefix("<?xml") {
+                match r.find("?>") {
+                    // (a declaration that is itself damaged stops the reader before the root)
+                    Some(i)
+                        if crate::xmlstrict::parse_document(&format!("<?xml{}?><a/>", &r[..i])).is_ok() =>
+                    {
+                        rest = r[i + 2..].trim_start();
+                    }
+                    _ => break false,
+                }
+            } else if let Some(r) = rest.strip_prefix("<!--") {
+                match r.find("-->") {
+                    Some(i) if !r[..i].contains("--") => rest = r[i + 3..].trim_start(),
+                    _ => break false,
+                }
+            } else if rest.starts_with('<') {
+                let Some(gt) = rest.find('>') else { break false };
+                let tag = &rest[1..gt];
+                break root_tag_is_reply_to(tag, &id_a);
+            } else {
+                break false;
+            }
+        }
+    };
+    // bytes that claim to be the reply to B itself are B's business (whatever they hold)
+    if text.contains(&format!("message-id=\"{id_b}\"")) || text.contains(&format!("message-id='{id_b}'")) {
+        return Fed::Returned { parsed_beyond_root: false };
+    }
+    wire.push(bytes.to_vec());
+    wire.push(
+        format!(
+            "<rpc-reply xmlns=\"{NS_BASE}\" message-id=\"{id_b}\"><data>{TAG}</data></rpc-reply>{MARKER}"
+        )
+        .into_bytes(),
+    );
+    let b = drive(fut_b);
+    drop(fut_a);
+    match b {
+        None => Fed::OtherCallerBroken("request B never resolved although its reply arrived".into()),
+        Some(Ok(v)) if &*v == TAG => Fed::Returned { parsed_beyond_root: true },
+        Some(Ok(v)) => Fed::OtherCallerBroken(format!("request B got foreign data {v:?}")),
+        Some(Err(_)) if !addressed_to_a => Fed::Returned { parsed_beyond_root: false },
+        Some(Err(e)) => Fed::OtherCallerBroken(format!(
+            "request B failed with {e:?} because its reader met a damaged reply whose start tag plainly bears the other request's message-id {id_a}; B's own intact reply followed"
         )),
     }
 }
@@ -681,13 +840,15 @@ impl Prop for Mutations {
             prop::collection::vec(mutation(), 0..4),
             prop::bool::weighted(0.3),
             prop::bool::weighted(0.3),
+            prop::bool::weighted(0.25),
         )
-            .prop_map(|(base, style, mutations, b_first, late_reply)| Case {
+            .prop_map(|(base, style, mutations, b_first, late_reply, other_reads)| Case {
                 base,
                 style,
                 mutations,
                 b_first,
                 late_reply: late_reply && !b_first,
+                other_reads: other_reads && !b_first && !late_reply,
             })
             .boxed()
     }
@@ -711,6 +872,13 @@ impl Prop for Mutations {
                 }
                 if case.late_reply {
                     late(spec, &bytes, &mut obs)
+                } else if case.other_reads {
+                    obs.class("order:the-other-request's-reader-meets-the-damaged-reply");
+                    let (sp, b) = (spec.clone(), bytes.clone());
+                    match catch(move || feed_reply_other_reads(&sp, &b)) {
+                        Ok(f) => f,
+                        Err((loc, msg)) => Fed::Panicked(loc, msg),
+                    }
                 } else {
                     feed_reply_ordered(spec, &bytes, case.b_first)
                 }
